@@ -2,10 +2,12 @@
 # tools/runall.sh [tier] [seed]   — run every registered check once; summary line per check
 cd "$(dirname "$0")/.."
 TIER=${1:-quick}; SEED=${2:-1}
+bad=0
 for p in C01 C02 C03 C04 C05 C06 C07 C08 C09 C10 C11 C12 C13 C14 C15 C16 C17 C18 C19 C20; do
   s=$(date +%s)
   out=$(VERIF_SEED=$SEED ./check $p --tier $TIER 2>&1); rc=$?
   e=$(date +%s)
   echo "$p rc=$rc $((e-s))s $(echo "$out" | grep -E '^C[0-9]+ tier' | sed 's/.*evaluations/evaluations/')"
-  [ $rc -ne 0 ] && echo "$out" | grep -E "VIOLATION|bucket|HARNESS|Traceback" | head -5
+  if [ $rc -ne 0 ]; then echo "$out" | grep -E "VIOLATION|bucket|HARNESS|Traceback" | head -5; bad=$((bad+1)); fi
 done
+exit $bad
